@@ -988,12 +988,22 @@ func nonConvergenceCause(w *World, wt *watcher) string {
 			if p.idx == 0 || !p.connected() || p.beh.MaxHeaders <= 0 || !fork.IsAncestorOf(p.view) || ct.IsAncestorOf(p.view) {
 				continue
 			}
-			first := p.view
-			if int(p.view.Height-fork.Height) > p.beh.MaxHeaders {
-				first = p.view.Ancestor(fork.Height + int32(p.beh.MaxHeaders))
-			}
-			if new(big.Int).Sub(first.CumWork, fork.CumWork).Cmp(displaced) <= 0 {
-				return "sync-peer-serves-heavier-branch-in-batches-not-heavier-alone"
+			// The batch starts after the newest block of the client's
+			// locator that the node has on its chain: the fork point at
+			// best, genesis when the locator is the client's tip alone (as
+			// it is while the client follows its sync peer batch by batch).
+			for _, from := range []int32{fork.Height, 0} {
+				end := from + int32(p.beh.MaxHeaders)
+				if end > p.view.Height {
+					end = p.view.Height
+				}
+				if end <= fork.Height {
+					continue
+				}
+				last := p.view.Ancestor(end)
+				if new(big.Int).Sub(last.CumWork, fork.CumWork).Cmp(displaced) <= 0 {
+					return "sync-peer-serves-heavier-branch-in-batches-not-heavier-alone"
+				}
 			}
 		}
 	}
